@@ -190,6 +190,7 @@ TARGETS = [
     ("src/series/data/inline_meta.rs", None, "repair_incomplete_last_write", None),
     ("src/series/data/inline_meta.rs", None, "repaired_is_only_meta", None),
     ("src/series/data/inline_meta.rs", "FileWithInlineMeta", "new", None),
+    ("src/series.rs", "ByteSeries", "n_lines_between", "(d : Bytes)"),
 ]
 
 LEAN_KEYWORDS = {"end", "at", "from", "open", "section", "then", "do", "fun", "in", "have", "show", "where",
@@ -484,6 +485,20 @@ class Tr:
             if k == "ptstruct" and name == "Some" and len(path) == 1:
                 inner = generic_arg(scrut_ty, "Option")
                 return [(f"some {self.paren_pat(s)}", b) for s, b in self.pats(pat[2][0], inner)]
+            if k == "ptstruct" and name in ("Ok", "Err") and len(path) == 1 and (scrut_ty or "").startswith("R<"):
+                # the scrutinee is a call in the error monad: match on the `Except` value itself
+                inner = pat[2][0]
+                if name == "Ok":
+                    return [(f"Except.ok {self.paren_pat(s_)}", b) for s_, b in self.pats(inner, scrut_ty[2:-1])]
+                if inner[0] == "pbind":
+                    return [(f"Except.error {mangle(inner[1])}", {inner[1]: "Fault"})]
+                if inner[0] == "pwild":
+                    return [("Except.error _", {})]
+                if inner[0] == "ppath":
+                    r = self.resolve_enum(inner[1])
+                    if r and r[0] in ERROR_ENUMS:
+                        return [(f'Except.error (Fault.err "{r[1]}")', {})]
+                raise Unsupported("Err(..) pattern")
             if k == "ptstruct" and name in ("Ok", "Err") and len(path) == 1:
                 if scrut_ty != "BRes":
                     raise Unsupported("match on a Result other than a binary search result")
@@ -878,6 +893,8 @@ class Tr:
         if r:
             en, variant = r
             if en in ERROR_ENUMS:
+                if len(args) == 1 and args[0][0] == "path" and len(args[0][1]) == 1 and self.scope.get(args[0][1][0]) == "Fault":
+                    return Val([], mangle(args[0][1][0]), "fault")      # an error wrapped into the API's error: only the wrapping changes
                 return Val([], f'(Fault.err "{variant}")', "fault")
             ctor, arity = self.enum_ctor(en, variant)
             if len(args) != arity:
@@ -968,6 +985,16 @@ class Tr:
         ret = norm_type(rty, key[0]) if rty else "()"
         if ret.startswith("Result<"):
             ret = generic_arg(ret, "Result")
+        if ret == "Self" and key[0]:
+            ret = key[0]
+        if ret.startswith("Option<Self>") and key[0]:
+            ret = f"Option<{key[0]}>"
+        for tgt in TARGETS:
+            if (tgt[1], tgt[2]) == key and tgt[3]:
+                mine = [x for x in TARGETS if (x[1], x[2]) == (self.impl, self.fn_name)]
+                if not mine or mine[0][3] != tgt[3]:
+                    raise Unsupported("callee needs an extra parameter the caller does not have")
+                ts.append(tgt[3].strip("()").split(":")[0].strip())
         if file_arg:
             t = self.fresh()
             call = "(" + lean_name(*key) + "".join(" " + x for x in ts) + ")"
@@ -1006,6 +1033,11 @@ class Tr:
                 sx, tx, _ = self.atom_of(args[0])
                 return Val(sx + [("assign", f, f"(Rs.setLen {f} {tx})")], "()", "mon_unit")
             raise Unsupported(f"method .{name}() on the file")
+        if name in ("start_bound", "end_bound") and not args:
+            v = self.tr(recv_e)
+            if (v.ty or "").startswith("implRangeBounds<"):
+                s_, t_ = self.atom(v)
+                return Val(s_, f"{t_}.{1 if name == 'start_bound' else 2}", "pure", "Bound<u64>")
         if name == "to_le_bytes":
             v = self.tr(recv_e)
             if v.ty in ("u64", "Timestamp"):
@@ -1205,6 +1237,14 @@ class Tr:
         return Val(st, ("if", c, then, els), "code", ty)
 
     def tr_match(self, e, mode="value"):
+        def is_res_pat(p):
+            return p[0] == "ptstruct" and p[1] in (["Ok"], ["Err"])
+        if all(all(is_res_pat(p) for p in arm[0]) for arm in e[2]):
+            v0 = self.tr(e[1])
+            if v0.kind == "mon" and v0.ty != "BRes":
+                code, mty = self.match_arms(v0.term, f"R<{v0.ty}>", e[2], mode)
+                self.last_ty = mty
+                return Val(v0.stmts, code, "code", mty)
         s, t, v = self.atom_of(e[1])
         code, mty = self.match_arms(t, v.ty, e[2], mode)
         self.last_ty = mty
@@ -1600,6 +1640,8 @@ def lean_type(t, impl=None):
         return lean_type(generic_arg(t, "Result"), impl)
     if t.startswith("RangeInclusive<"):
         return "(Nat × Nat)"
+    if t.startswith("implRangeBounds<"):
+        return "(Impl.Bound × Impl.Bound)"
     if t.startswith("Result<(),"):
         return "Unit"
     if t.startswith("(") and t.endswith(")"):
